@@ -1,9 +1,11 @@
-(** Proofs/NNSSyntaxIP6.v — lemmas for C18, part 4 (AAAA records): what
-    [checkIPv6] of Model/NNSSyntax.v accepts, against [valid_AAAA] of
-    Spec/Grammar.v (RFC 4291 text forms 1 and 2 of a global unicast address).
-    The scanner rejects the form "seven groups followed by ::" (finding F12);
-    everything else agrees. *)
-From Verif Require Import Base.Prelude Model.NNSSyntax Spec.Grammar Proofs.NNSSyntaxLib.
+(** Proofs/NNSSyntaxIP6.v — lemmas for C18, part 4 (AAAA records): the loop
+    of checkIPv6 (Model/NNSSyntax.v) on every shape of the fragment list, and
+    from it what the function accepted BEFORE commit 7bd3a2c
+    ([checkIPv6_old], Model/NNSSyntaxF12.v): [valid_AAAA] of Spec/Grammar.v
+    (RFC 4291 text forms 1 and 2 of a global unicast address) minus the form
+    "seven groups followed by ::" (finding F12).  Proofs/NNSSyntaxF12.v lifts
+    this to the current function, which accepts exactly [valid_AAAA]. *)
+From Verif Require Import Base.Prelude Model.NNSSyntax Model.NNSSyntaxF12 Spec.Grammar Proofs.NNSSyntaxLib.
 From Coq Require Import ZifyBool ZifyNat ZifyN.
 Local Open Scope Z_scope.
 
@@ -145,7 +147,7 @@ Proof.
 Qed.
 
 (* ------------------------------------------------------------------ *)
-(** * The loop of checkIPv6 *)
+(** * The loop of checkIPv6_old *)
 
 Lemma loop_cons (F : list bytes) (l : Z) (f : bytes) (rest' : list bytes) (i : Z) (hasEmpty : bool) (nums : list Z) :
   ipv6_loop F l (f :: rest') i hasEmpty nums =
@@ -597,8 +599,8 @@ Definition gcheck (nums : list Z) : outcome bool :=
     if (f1 <? 0x200) || (f1 =? 0xdb8) then Halt false else Halt true
   else Halt true.
 
-Lemma checkIPv6_unfold s :
-  checkIPv6 s =
+Lemma checkIPv6_old_unfold s :
+  checkIPv6_old s =
   if (len s <? 2) || (39 <? len s) then Halt false
   else
     fragments <-! std_string_split s 58;
@@ -722,12 +724,12 @@ Lemma zeros_succ n : zeros (S n) = 0 :: zeros n.
 Proof. reflexivity. Qed.
 
 (* ------------------------------------------------------------------ *)
-(** * checkIPv6 against the grammar *)
+(** * checkIPv6_old against the grammar *)
 
 (** Soundness: every accepted string is the text of a global unicast address. *)
-Theorem ipv6_sound s : checkIPv6 s = Halt true -> valid_AAAA s.
+Theorem ipv6_sound s : checkIPv6_old s = Halt true -> valid_AAAA s.
 Proof.
-  rewrite checkIPv6_unfold.
+  rewrite checkIPv6_old_unfold.
   destruct ((len s <? 2) || (39 <? len s)) eqn:El; [discriminate|].
   destruct (std_string_split s 58) as [F|] eqn:Es; [|discriminate]. cbn [obind].
   apply std_split_inv in Es.
@@ -764,9 +766,9 @@ Proof.
 Qed.
 
 (** Finding F12: seven groups followed by "::" make nine fragments. *)
-Theorem ipv6_f12_rejected s : f12_shape s -> checkIPv6 s = Halt false.
+Theorem ipv6_f12_rejected s : f12_shape s -> checkIPv6_old s = Halt false.
 Proof.
-  intros (L & HL7 & GL & ->). rewrite checkIPv6_unfold.
+  intros (L & HL7 & GL & ->). rewrite checkIPv6_old_unfold.
   set (s := join 58 L ++ [58; 58]%N).
   destruct ((len s <? 2) || (39 <? len s)) eqn:El; [reflexivity|].
   assert (Hasc : Forall (fun c => (c < 128)%N) s).
@@ -783,9 +785,9 @@ Qed.
 (** Completeness: form 1 ... *)
 Lemma full_accept G :
   length G = 8%nat -> Forall hexgroup G -> global_unicast6 (map hexval G) ->
-  checkIPv6 (join 58 G) = Halt true.
+  checkIPv6_old (join 58 G) = Halt true.
 Proof.
-  intros HG8 GG Hg. rewrite checkIPv6_unfold.
+  intros HG8 GG Hg. rewrite checkIPv6_old_unfold.
   assert (Hne : G <> []) by (destruct G; [discriminate|discriminate]).
   pose proof (join_len_lt G Hne GG) as Hub. pose proof (join_len_ge G Hne GG) as Hlb.
   replace ((len (join 58 G) <? 2) || (39 <? len (join 58 G))) with false by (unfold len; lia).
@@ -803,9 +805,9 @@ Lemma compressed_accept L R :
   L <> [] -> Forall hexgroup L -> Forall hexgroup R -> (length L + length R <= 7)%nat ->
   (R = [] -> (length L <= 6)%nat) ->
   global_unicast6 (map hexval L ++ repeat 0 (8 - length L - length R) ++ map hexval R) ->
-  checkIPv6 (join 58 L ++ [58; 58]%N ++ join 58 R) = Halt true.
+  checkIPv6_old (join 58 L ++ [58; 58]%N ++ join 58 R) = Halt true.
 Proof.
-  intros HLne GL GR Hlen Hn6 Hg. rewrite checkIPv6_unfold.
+  intros HLne GL GR Hlen Hn6 Hg. rewrite checkIPv6_old_unfold.
   pose proof (join_len_lt L HLne GL) as HubL. pose proof (join_len_le R GR) as HubR.
   set (s := join 58 L ++ [58; 58]%N ++ join 58 R).
   assert (Hls : (2 <= length s <= 39)%nat).
@@ -840,7 +842,7 @@ Qed.
 (** Every global unicast text is accepted, or it is seven groups and "::". *)
 Lemma ipv6_complete_or s g :
   textual_ipv6 s g -> global_unicast6 g ->
-  checkIPv6 s = Halt true \/
+  checkIPv6_old s = Halt true \/
   (exists L, length L = 7%nat /\ Forall hexgroup L /\ s = join 58 L ++ [58; 58]%N /\
              g = map hexval L ++ repeat 0 1).
 Proof.
@@ -862,7 +864,7 @@ Proof.
 Qed.
 
 (** Completeness outside F12. *)
-Theorem ipv6_complete s : valid_AAAA s -> ~ f12_shape s -> checkIPv6 s = Halt true.
+Theorem ipv6_complete s : valid_AAAA s -> ~ f12_shape s -> checkIPv6_old s = Halt true.
 Proof.
   intros (g & Ht & Hg) Hn12.
   destruct (ipv6_complete_or s g Ht Hg) as [H|(L & H7 & GL & -> & _)]; [exact H|].
@@ -870,7 +872,7 @@ Proof.
 Qed.
 
 (** The full characterisation of what ships. *)
-Theorem ipv6_equiv s : checkIPv6 s = Halt true <-> valid_AAAA s /\ ~ f12_shape s.
+Theorem ipv6_old_equiv s : checkIPv6_old s = Halt true <-> valid_AAAA s /\ ~ f12_shape s.
 Proof.
   split.
   - intros H. split; [apply ipv6_sound, H|].
